@@ -176,7 +176,12 @@ static void CountTreeStats(const AFilter & f)   // what the generated trees cont
    vh::stat(std::string("kind_") + FKName(f.kind));
    switch (f.kind) {
       case FK_NUMERIC: vh::stat(std::string("numtype_") + VTName(f.vt)); vh::stat(vh::fmt("numop_%u", f.op > 5 ? 99 : f.op)); if (f.maskOp) vh::stat(vh::fmt("maskop_%u", f.maskOp > 6 ? 99 : f.maskOp)); if (f.index) vh::stat("leaf_with_index"); if (f.hasDef) vh::stat("leaf_with_assumed_default"); break;
-      case FK_STRING: case FK_NODENAME: vh::stat(vh::fmt("strop_%02u", f.op > 27 ? 99 : f.op)); if (f.index) vh::stat("leaf_with_index"); if (f.hasDef) vh::stat("leaf_with_assumed_default"); break;
+      case FK_STRING: case FK_NODENAME: vh::stat(vh::fmt("strop_%02u", f.op > 27 ? 99 : f.op));
+         if (f.patKind == PAT_WILD && f.wild) {
+            const int wc = WildOperandClass(f);
+            vh::stat(wc == 1 ? "wildcard_operands_with_escape_only" : wc == 2 ? "wildcard_operands_with_escape_and_wildcard" : wc == 3 ? "wildcard_operands_with_wildcard_only" : wc == 0 ? "wildcard_operands_plain_text" : "wildcard_operands_numeric_range");
+            if (f.wild->negate) vh::stat("wildcard_operands_negated"); if (f.wild->alts.size() > 1) vh::stat("wildcard_operands_comma_list"); if (f.op == 26) vh::stat("wildcard_operands_ignorecase");
+         } if (f.index) vh::stat("leaf_with_index"); if (f.hasDef) vh::stat("leaf_with_assumed_default"); break;
       case FK_RAW: vh::stat(vh::fmt("rawop_%02u", f.op > 11 ? 99 : f.op)); if (f.index) vh::stat("leaf_with_index"); if (f.hasDef) vh::stat("leaf_with_assumed_default"); break;
       case FK_MINMATCH: case FK_MAXMATCH: vh::stat(f.threshold == MUSCLE_NO_LIMIT ? "threshold_no_limit" : f.threshold == 0 ? "threshold_zero" : f.threshold + 1 == f.kids.size() ? "threshold_kids_minus_1" : f.threshold == f.kids.size() ? "threshold_eq_kids" : f.threshold > f.kids.size() ? "threshold_above_kids" : "threshold_between"); break;
       case FK_MESSAGE: if (f.defMsg) vh::stat("message_filter_with_default_message"); if (!f.hasChild) vh::stat("message_filter_without_child"); break;
@@ -526,8 +531,29 @@ static void Regress()
          regressChecks++;
       }
    }
+   vh::begin_case(8);
+   {  // backslash escapes in simple wildcard patterns ("\\x makes x literal"), also for patterns that can only ever match one string (seeded change C14-2)
+      const std::string T = "wildcard-escape";
+      struct W { const char * pat; const char * subject; bool want; } w[] = {
+         {"report\\*", "report*", true}, {"report\\*", "report\\*", false}, {"report\\*", "reportX", false}, {"report\\*", "report", false},
+         {"what\\?", "what?", true}, {"what\\?", "what\\?", false}, {"what\\?", "whatx", false},
+         {"\\[x\\]", "[x]", true}, {"\\[x\\]", "x", false}, {"\\[x\\]", "\\[x\\]", false},
+         {"a\\,b", "a,b", true}, {"a\\,b", "a", false}, {"a\\,b", "a\\,b", false},
+         {"\\~x", "~x", true}, {"\\~x", "x", false}, {"\\~x", "\\~x", false},
+         {"a\\*b*", "a*bcd", true}, {"a\\*b*", "aXbcd", false}, {"a\\*b*", "a\\*b", false},
+         {"plain", "plain", true}, {"plain", "Plain", false}, {"~A*", "Apple", false}, {"~A*", "apple", true}, {"<19-21>", "20", true}, {"<19-21>", "22", false}, {"a,b", "b", true}, {"a,b", "a,b", false} };
+      for (size_t i = 0; i < sizeof(w) / sizeof(w[0]); i++) {
+         AMsg am; am.Set("s", VT_STRING, B_STRING_TYPE).items.push_back(SV(w[i].subject)); MessageRef rm = BuildMessage(am);
+         StringQueryFilter f("s", StringQueryFilter::OP_SIMPLE_WILDCARD_MATCH, w[i].pat); ConstMessageRef c1 = rm;
+         Expect(T, vh::fmt("StringQueryFilter(OP_SIMPLE_WILDCARD_MATCH, [%s]) on [%s]", w[i].pat, w[i].subject), f.Matches(c1, NULL), w[i].want);
+         Expect(T, vh::fmt("the reference matcher on [%s] / [%s]", w[i].pat, w[i].subject), refwild::Match(std::string(w[i].pat), std::string(w[i].subject)), w[i].want);
+         bool p; const std::string e = std::string("s matches \"") + w[i].pat + "\"";
+         Expect(T, "[" + e + vh::fmt("] on [%s]", w[i].subject), ExprOn(e.c_str(), am, p) && p, w[i].want);
+         std::string why; QueryFilterRef g2 = RoundTrip(f, &why); if (g2() == NULL) RFail(T, "restore failed: " + why); else { ConstMessageRef c2 = rm; Expect(T, vh::fmt("restored filter, [%s] on [%s]", w[i].pat, w[i].subject), g2()->Matches(c2, NULL), w[i].want); }
+      }
+   }
    vh::stat("regress_checks", regressChecks);
-   for (int i = 1; i <= 8; i++) vh::distinct((uint64_t)i);
+   for (int i = 1; i <= 9; i++) vh::distinct((uint64_t)i);
 }
 
 int main(int argc, char ** argv)
